@@ -55,6 +55,10 @@ type Program struct {
 	maxConcretize int
 	maxAlloc      int
 	sawUnknown    bool
+	regionMerge   bool
+	maxRegionDepth int
+	maxRegionPaths int
+	lazyRegions    bool
 }
 
 func (p *Program) isRoot(pkg *ssa.Package) bool { return p.roots[pkg] }
@@ -162,7 +166,8 @@ func LoadProgram(rootDirs []string, harnessFilter func(file string) bool) (*Prog
 		stubs: map[string]*stubDir{}, merge: map[string]bool{}, goIgnore: map[string]bool{},
 		externGlobals: map[string]func(w *Worker, t types.Type) Value{},
 		overlay:       ov, overlayFiles: files, harnessFuncs: map[string]*ssa.Function{},
-		maxSymIndex: 4096, maxDepth: 400, maxConcretize: 70, maxAlloc: 8192}
+		maxSymIndex: 4096, maxDepth: 400, maxConcretize: 70, maxAlloc: 8192,
+		regionMerge: os.Getenv("GOSYM_NOMERGE") == "", maxRegionDepth: 200, maxRegionPaths: 64, lazyRegions: os.Getenv("GOSYM_NOLAZY") == ""}
 	for _, sp := range spkgs {
 		if sp == nil {
 			continue
